@@ -10,9 +10,12 @@ package filterstorage_test
 // is owned without touching /repo: the old-version request compiles and
 // parks; the updated profile's first request compiles and stores; the
 // old-version request is released and stores last (or, for the other order,
-// is released before the update).  Judged is the final state only: after both
-// have returned, requests with the updated profile get the updated rules'
-// verdicts, as a storage without caches gives them.
+// is released before the update).  The updated profile's first request is
+// waited for only for a grace period before the release, so an implementation
+// that makes it wait for the compilation in flight cannot hang the schedule.
+// Judged are that request's own verdict (it carried the updated rules) and the
+// final state: after both have returned, requests with the updated profile get
+// the updated rules' verdicts, as a storage without caches gives them.
 
 import (
 	"context"
@@ -36,6 +39,11 @@ type vc12Park struct {
 	entered chan struct{}
 	release chan struct{}
 }
+
+// vc12CustomRaceGrace is how long the first request with the updated profile is
+// given to return while the old-version request is parked.  It selects the
+// schedule, it is never a verdict.
+const vc12CustomRaceGrace = 75 * time.Millisecond
 
 // vc12CustomCompiledMsg is the message custom.Filters.Get logs after it has
 // compiled a filter and before it stores it.
@@ -150,19 +158,94 @@ func TestVerifC12CustomUpdateRace(t *testing.T) {
 		c.epoch++
 		c.logf("VERSION n+1 of %s: %v", r.Name, r.CustomRules)
 
-		first := vc12Q{Host: rapid.SampledFrom(vc12Hosts).Draw(t, "firsthost"), QT: dns.TypeA, QC: dns.ClassINET}
+		// The first request with version n+1, preferably for a host on which the
+		// two versions disagree.  It runs on the cache-enabled side while the
+		// old-version request may still be parked, so it gets a goroutine of its
+		// own; an implementation may make it wait for the compilation in
+		// flight, and then it only returns after the release.
+		var differing []string
+		for _, h := range vc12Hosts {
+			if fmt.Sprint(vc12Matching(oldRules, h, dns.TypeA, 0)) != fmt.Sprint(vc12Matching(r.CustomRules, h, dns.TypeA, 0)) {
+				differing = append(differing, h)
+			}
+		}
+
+		hosts := vc12Hosts
+		if len(differing) > 0 && rapid.IntRange(0, 3).Draw(t, "anyhost") > 0 {
+			hosts = differing
+		}
+
+		first := vc12Q{Host: rapid.SampledFrom(hosts).Draw(t, "firsthost"), QT: dns.TypeA, QC: dns.ClassINET}
 		vc12DrawFlags(t, &first, false)
-		c.ask(0, first, "", false)
+		newCfg := r.config()
+		newReq := first.request(r, 0)
+
+		type newOut struct {
+			res vc12Res
+			err error
+		}
+
+		newDone := make(chan newOut, 1)
+		go func() {
+			raw, err := c.cached.strg.ForConfig(ctx, newCfg).FilterRequest(ctx, newReq)
+			newDone <- newOut{res: vc12Render(raw), err: err}
+		}()
+
+		var got newOut
+		returned := false
+		select {
+		case got = <-newDone:
+			returned = true
+		case <-time.After(vc12CustomRaceGrace):
+			c.st.Class("new-version-request-did-not-return-while-old-compilation-parked")
+			c.logf("the first request with version n+1 has not returned %s after it was sent", vc12CustomRaceGrace)
+		}
 
 		order := "old-version-stored-before-update"
 		if !oldFirst {
 			close(park.release)
-			if err := <-oldDone; err != nil {
-				c.failf("old-version request: %v", err)
+			select {
+			case err := <-oldDone:
+				if err != nil {
+					c.failf("old-version request: %v", err)
+				}
+			case <-time.After(vc12Timeout):
+				vc12Inconclusive(t, "the old-version request is still stuck %s after its release", vc12Timeout)
 			}
 
 			order = "old-version-compilation-finished-after-new-version-cached"
 		}
+
+		if !returned {
+			select {
+			case got = <-newDone:
+			case <-time.After(vc12Timeout):
+				vc12Inconclusive(t, "the first request with version n+1 is still stuck %s after the old one was released", vc12Timeout)
+			}
+		}
+
+		if got.err != nil {
+			c.failf("first request with version n+1: %v", got.err)
+		}
+
+		// (a) That request carried version n+1, so it is judged by version n+1.
+		c.twin.purge()
+		wantRaw, err := c.twin.strg.ForConfig(ctx, newCfg).FilterRequest(ctx, first.request(r, 1))
+		if err != nil {
+			c.failf("reference storage: %v", err)
+		}
+
+		want := vc12Render(wantRaw)
+		c.logf("FIRST n+1 QUERY %s %s -> %s (returned while the old one was parked: %t)", r.Name, &first, got.res.verdict(), returned)
+		c.checkErrs("first request with version n+1")
+		if got.res.String() != want.String() {
+			c.failf("a request with the updated profile is answered from the previous version: %s asked %s with rules %v while a compilation of %v was in flight\n"+
+				"  with caches:    %s\n  without caches: %s", r.Name, &first, r.CustomRules, oldRules, got.res, want)
+		} else if why := c.modelRequest(r, first.Host, first.QT, got.res); why != "" {
+			c.failf("answer does not follow from the current list versions: %s asked %s -> %s: %s", r.Name, &first, got.res.verdict(), why)
+		}
+
+		c.st.Case("", "first-query-with-new-version")
 
 		c.logf("ORDER %s", order)
 		c.st.Class(order)
